@@ -6,7 +6,7 @@
 // delete, so that "destroyed" is decided by the harness and every later access to a destroyed object - read or write,
 // e.g. through a stale prev/next link - is a use-after-free for the engine (and for ASan in the native replay).
 // Start: one of a few configurations built through the public constructors (driver parameter `init`), then the first
-// operation is a driver parameter (`op1`) and `steps`-1 further operations are the solver's choice, each with operand
+// operation is a driver parameter (`op1`; in the deepest runs also `op2`/`op3`) and the further operations are the solver's choice, each with operand
 // slots chosen by the solver:
 //   0 construct an element into a live list      1 destroy an element            2 move-construct an element
 //   3 move-assign an element (also onto itself)  4 unlink an element             5 construct a list
@@ -321,13 +321,13 @@ void history(bool const avoid)
   w.avoid = avoid;
   init(w, static_cast<unsigned>(verif_param("init")));
   unsigned const steps{static_cast<unsigned>(verif_param("steps"))};
-  unsigned const op2{static_cast<unsigned>(verif_param("op2"))}; // 9: the solver's choice
+  unsigned const op2{static_cast<unsigned>(verif_param("op2"))}, op3{static_cast<unsigned>(verif_param("op3"))}; // 9: the solver's choice
   check(w);
   apply(w, static_cast<unsigned>(verif_param("op1")));
   check(w);
   for (unsigned k = 1; k < steps; ++k)
   {
-    apply(w, k == 1 && op2 < 9 ? op2 : shape("op", 8U));
+    apply(w, k == 1 && op2 < 9 ? op2 : k == 2 && op3 < 9 ? op3 : shape("op", 8U));
     check(w);
   }
   // tear down in either order
@@ -343,8 +343,9 @@ void history(bool const avoid)
 VERIF_HARNESS(h_list_all) { history(false); }
 VERIF_HARNESS(h_list_safe) { history(true); }
 
-//@harness h_list_{V} for V in all,safe param init=0..4 param steps=1..2 param op1=0..8 param op2=9 if (init>0)|(op1==0)|(op1>=5) tier=quick leak=1 paths=200000
-//@harness h_list_{V} for V in all,safe param init=1 param steps=3 param op1=0..8 param op2=9 tier=quick leak=1 paths=200000
-//@harness h_list_{V} for V in all,safe param init=0,2,3,4 param steps=3 param op1=0..8 param op2=9 if (init>0)|(op1==0)|(op1>=5) tier=thorough leak=1 paths=200000
-//@harness h_list_safe param init=1,3 param steps=4 param op1=0..8 param op2=0..8 tier=thorough leak=1 paths=400000 wall=1500
-//@harness h_list_safe param init=1 param steps=5 param op1=7 param op2=0..8 tier=thorough leak=1 paths=1000000 wall=1700 cost=9
+//@harness h_list_{V} for V in all,safe param init=0..4 param steps=1..2 param op1=0..8 param op2=9 param op3=9 if (init>0)|(op1==0)|(op1>=5) tier=quick leak=1 paths=200000
+//@harness h_list_{V} for V in all,safe param init=1 param steps=3 param op1=0..8 param op2=9 param op3=9 tier=quick leak=1 paths=200000
+//@harness h_list_{V} for V in all,safe param init=0,2,3,4 param steps=3 param op1=0..8 param op2=9 param op3=9 if (init>0)|(op1==0)|(op1>=5) tier=thorough leak=1 paths=200000
+//@harness h_list_safe param init=1 param steps=4 param op1=2,3,7,8 param op2=0..8 param op3=9 tier=thorough leak=1 paths=400000 wall=1500
+//@harness h_list_safe param init=1 param steps=5 param op1=7 param op2=0 param op3=1,2,3,7 tier=thorough leak=1 paths=1000000 wall=1700 cost=9
+//@harness h_list_safe param init=1 param steps=5 param op1=7 param op2=2 param op3=1,7 tier=thorough leak=1 paths=1000000 wall=1700 cost=9
